@@ -467,6 +467,7 @@ class Exec:
         self.solver = z3.Solver()
         self.solver.set("timeout", solver_timeout_ms)
         self.axioms = []  # global facts re-asserted at every path start (intern table etc.)
+        self.path_axioms = []  # extra assumptions for a nested exploration (relational checks)
         self.strtab = {}  # concrete string -> id
         self.strrev = {}
         self.pc = []
@@ -639,6 +640,8 @@ class Exec:
             self.solver.reset()
             self.solver.set("timeout", 20000)
             for a in self.axioms:
+                self.solver.add(a)
+            for a in self.path_axioms:
                 self.solver.add(a)
             self.pc = []
             self.trace = []
